@@ -195,11 +195,18 @@ class ArcFrame:
     """The minor arc of the circle (c, r) between p and q (both on the circle): signed
     angle of a point measured from the bisector; p sits at -h or +h."""
 
-    def __init__(self, c, r, p, q):
+    def __init__(self, c, r, p, q, upper=False):
+        """upper=True (half-plane, centre on the real axis): the arc in the closed upper
+        half plane, which may be a full semicircle (both endpoints ideal)"""
         self.c, self.r = np.asarray(c, float), float(r)
-        a = math.atan2(p[1] - c[1], p[0] - c[0])
-        b = math.atan2(q[1] - c[1], q[0] - c[0])
-        d = float(wrap(b - a))          # signed sweep from p to q along the minor arc
+        if upper:
+            a = math.atan2(max(p[1] - c[1], 0.0), p[0] - c[0])
+            b = math.atan2(max(q[1] - c[1], 0.0), q[0] - c[0])
+            d = b - a                   # both angles lie in [0, pi]
+        else:
+            a = math.atan2(p[1] - c[1], p[0] - c[0])
+            b = math.atan2(q[1] - c[1], q[0] - c[0])
+            d = float(wrap(b - a))      # signed sweep from p to q along the minor arc
         self.a_start = a
         self.sweep = d
         self.mid = a + d / 2
